@@ -1023,6 +1023,13 @@ class ConfigInformation:
         job_context = JobContext(self.job)
         self.validate_and_seal(job_context)
 
+        # The sealer stops at sealed configurations: when the task was sealed
+        # before being submitted, its init tasks still have to be sealed
+        with job_context.push("__init_tasks__"):
+            for i, init_task in enumerate(self.init_tasks):
+                with job_context.push(str(i)):
+                    init_task.__xpm__.seal(job_context)
+
         # --- Workspace
 
         workspace = workspace or (
